@@ -35,6 +35,9 @@ def seqs(maxlen, only=None):
 
 XS = seqs(MAXN, NX)       # all duplicate-free sequences the first operand ranges over
 YS = seqs(MAXM)
+if PARAMS.get('dups'):
+    # operands that list an element more than once (only meaningful for list / tuple / generator operands)
+    YS = [list(p) for n in (2, 3) for p in itertools.product(EL[:3], repeat=n) if len(set(map(repr, p))) < n]
 NXS = len(XS)
 NYS = len(YS)
 
@@ -158,7 +161,11 @@ def _run(xs, ys, k, mask):
         elif OP == 'ixor':
             s ^= other
             keep = [x for x in model if x not in ys]
-            model = keep + [y for y in ys if y not in xs]
+            fresh = []
+            for y in ys:
+                if y not in xs and y not in fresh:
+                    fresh.append(y)          # an operand that lists an element twice still denotes a set
+            model = keep + fresh
         elif OP == 'or':
             result_set = (s | other, set(xs) | set(ys))
         elif OP == 'and':
@@ -169,11 +176,18 @@ def _run(xs, ys, k, mask):
             result_set = (s ^ other, set(xs) ^ set(ys))
         elif OP == 'eq':
             res = (s == other); exp_res = (xs == ys)
+            if PARAMS.get('dups'):
+                res = exp_res = None      # equality with a sequence that is not duplicate-free is not constrained
         elif OP == 'ne':
             res = (s != other); exp_res = (xs != ys)
+            if PARAMS.get('dups'):
+                res = exp_res = None
         elif OP == 'ctor':
             # construction from another collection keeps first-insertion order
-            s = cls(other); model = list(ys)
+            s = cls(other); model = []
+            for y in ys:
+                if y not in model:
+                    model.append(y)
         elif OP == 'iter_remove':
             visited = []
             for e in s:
